@@ -3,6 +3,7 @@
   prints one observation per op.
 -/
 import Model
+import Model.Merge
 open Esdt
 
 def bytesToString (b : Bytes) : String := String.ofList (b.map fun x => Char.ofNat x.toNat)
@@ -138,6 +139,55 @@ def parseToken (s : String) : Option Token :=
     some { type := ty.toNat!, value := if v == "n" then none else some (parseInt v), properties := unhxD p,
            reserved := unhxD r, md := if m == "n" then none else parseMeta m }
   | _ => none
+
+
+/-! ### mergeseq (C20) -/
+
+structure OAText where
+  oa : OA
+  bal : Option Int
+  delta : Option Int
+
+def parseOA (s : String) : Option OAText :=
+  match s.splitOn ";" with
+  | [a, n, b, d, st, code, cm, dep, tr, g] =>
+    let storage := if st == "" then [] else (st.splitOn ",").filterMap fun it =>
+      match it.splitOn ":" with
+      | [k, o, dd] => some (unhxD k, (unhxD o, unhxD dd))
+      | _ => none
+    some { oa := { address := unhxD a, nonce := n.toNat!, storage := storage, code := unhxD code, codeMeta := unhxD cm,
+                   deployer := if dep == "n" then none else some (unhxD dep),
+                   transfers := if tr == "" then [] else (tr.splitOn ".").map parseInt, gasUsed := g.toNat! },
+           bal := if b == "n" then none else some (parseInt b), delta := if d == "n" then none else some (parseInt d) }
+  | _ => none
+
+def allocOA (h : Heap) (t : OAText) : Heap × OA :=
+  let (h, bp) := match t.bal with | some v => let (h', p) := h.alloc v; (h', some p) | none => (h, none)
+  let (h, dp) := match t.delta with | some v => let (h', p) := h.alloc v; (h', some p) | none => (h, none)
+  (h, { t.oa with balance := bp, delta := dp })
+
+def sortStorage (s : List (Bytes × (Bytes × Bytes))) : List (Bytes × (Bytes × Bytes)) :=
+  (s.toArray.qsort (fun a b => hx a.1 < hx b.1)).toList
+
+def fmtOA (h : Heap) (o : OA) : String :=
+  let st := (sortStorage (o.storage.foldl (fun acc p => if acc.any (fun q => q.1 == p.1) then acc else acc ++ [p]) [])).map
+    fun (k, (of, d)) => hx k ++ ":" ++ hx of ++ ":" ++ hx d
+  let dep := match o.deployer with | none => "n" | some d => if d.isEmpty then "-" else hx d
+  joinWith ";" [hx o.address, toString o.nonce, optInt (o.balance.map h.get), optInt (o.delta.map h.get),
+    joinWith "," st, hx o.code, hx o.codeMeta, dep, joinWith "." (o.transfers.map intStr), toString o.gasUsed]
+
+def opMergeSeq (toks : List String) : String :=
+  match toks.mapM parseOA with
+  | none => "badop"
+  | some [] => "badop"
+  | some (t0 :: ts) =>
+    let (h, o) := allocOA {} t0
+    let (h, srcs) := ts.foldl (fun (acc : Heap × List OA) t => let (h', s) := allocOA acc.1 t; (h', acc.2 ++ [s])) (h, [])
+    let before := srcs.map (fmtOA h)
+    let (h', r) := mergeSeq h o srcs
+    let after := srcs.map (fmtOA h')
+    let bits := String.ofList ((before.zip after).map fun (a, b) => if a == b then '1' else '0')
+    "ok " ++ fmtOA h' r ++ " u=" ++ bits
 
 /-! ### ops -/
 
@@ -390,6 +440,7 @@ def step (w : World) (line : String) : World × String :=
       | some r => (w, "ok " ++ toString r)
       | none => (w, "err")
     | _ => (w, "badop")
+  else if cmd == "mergeseq" then (w, opMergeSeq rest)
   else (w, "badop")
 
 /-- `hint err` (inserted by the comparator in tolerant mode): the implementation rejected the next
